@@ -541,7 +541,7 @@ class PropertyCheck:
         # default: fresh, larger samples from the same generators
         fams = []
         for k in range(self.search_rounds):
-            r2 = random.Random(rng.getrandbits(64))
+            r2 = SeedRng(rng.getrandbits(64))
             fams += self.families(r2, self.search_tier if tier == "quick" else tier)
         return fams
 
@@ -550,6 +550,20 @@ class PropertyCheck:
 
     def describe_known(self, finding):
         return finding.get("what", finding.get("id", ""))
+
+
+class SeedRng(random.Random):
+    """the generator stream of one check run; `sub(name)` gives every family its own stream, derived from the run's seed and
+    the family's name only, so that what one family generates does not depend on how much randomness the families before it
+    consumed (a directed case must not disappear because an unrelated generator changed)"""
+
+    def __init__(self, seed):
+        random.Random.__init__(self, seed)
+        self._base = seed
+
+    def sub(self, name):
+        h = hashlib.sha1(("%s/%s" % (self._base, name)).encode()).digest()
+        return SeedRng(int.from_bytes(h[:8], "big"))
 
 
 def write_replay(prop, payload):
@@ -581,7 +595,7 @@ def main_check(chk, argv):
     workdir = os.path.join(BUILD, prop)
     os.makedirs(workdir, exist_ok=True)
     os.makedirs(EVIDENCE, exist_ok=True)
-    rng = random.Random(seed)
+    rng = SeedRng(seed)
 
     if a.replay:
         return replay(chk, a.replay, workdir)
